@@ -66,6 +66,11 @@ class Prog:
         return '\n'.join(L)
 
 
+FOLDED_CALLS = ["ord('A')", "ord('z')", 'max(3, 9)', 'min(4, 2)', 'max(2, 8, 5)', 'pow(3, 2)', 'pow(7, 2, mod=10)', 'pow(7, 2, 10)', 'pow(base=2, exp=5)',
+                "int('1010', base=2)", "int('17')", "int('ff', 16)", "int('21', base=8)", "len('abcd')", 'abs(7)', 'int(5)', 'bool(3)',
+                'max(0, 6)', 'min(9, 4, 6)', "int('0x1f', base=16)", 'pow(2, 10, mod=1000)']
+
+
 class PGen:
     def __init__(self, rnd, kind, cls='main', inject=None):
         self.rnd = rnd
@@ -117,6 +122,11 @@ class PGen:
             self.p.features.add('big_const')
             return str(rnd.choice([0x80000000, 0x80000001, 0x7FFFFFFF, 0xFFFFFFFF, 0xC0000000, 0x80000000 + rnd.getrandbits(8), 1 << 30]))
         if r < 0.3:
+            if rnd.random() < 0.12:
+                # a builtin called on literals only is folded to a constant at generation time: the constant must be the value Python computes,
+                # whichever way (positionally or by keyword) the literals are passed
+                self.p.features.add('folded_call')
+                return rnd.choice(FOLDED_CALLS)
             return str(rnd.randint(0, 9 if self.small else 255))
         if r < 0.6 or not (p.states or p.locals or p.consts):
             return 'self.%s.get()' % rnd.choice(p.ins)[0]
@@ -359,7 +369,7 @@ def transpile(obj):
         return py4hw.VerilogGenerator(obj).getVerilogForHierarchy()
 
 
-def cosim_behavioural(obj, hw, ins, outs, state_names, vectors, sequential, text=None, as_instance=False, watch=()):
+def cosim_behavioural(obj, hw, ins, outs, state_names, vectors, sequential, text=None, as_instance=False, watch=(), power_up=False):
     """ins/outs: lists of wires. Returns Result."""
     res = Result()
     if text is None:
@@ -426,6 +436,15 @@ def cosim_behavioural(obj, hw, ins, outs, state_names, vectors, sequential, text
                 return False
         return True
 
+    if power_up and sequential:
+        # the state trajectory starts at power-up: the constructor's values against the module's initial values
+        for s in vstates:
+            a = getattr(obj, s)
+            if isinstance(a, bool):
+                a = int(a)
+            if isinstance(a, int) and 0 <= a < (1 << 31) and a != it.top.vals[s]:
+                res.mismatch = dict(kind='state', name=s, step=-1, when='power-up', python=a, verilog=it.top.vals[s], inputs={})
+                return res
     try:
         for step, vec in enumerate(vectors):
             for w in ins:
@@ -643,6 +662,8 @@ def judge(run, label, prog_cls, kind, res, case, src_hash):
     run.count('steps_skipped_out_of_domain', res.skipped)
     if res.status == 'compared':
         run.count('programs_compared')
+        for f in case.get('features', ()):
+            run.count('compared_with_' + f)
         if res.in_domain >= 8 and len(res.values) >= len(set(n for n, _ in res.values)) + 1:
             run.nt(src_hash)
     if res.status == 'invalid_text' or res.mismatch is not None:
@@ -678,7 +699,7 @@ def run_generated(run, d, idx, seed, n_cycles):
     except Exception as e:
         run.count('generator_error')
         return
-    case = dict(workload='generated', index=idx, program_class=cls, source=src)
+    case = dict(workload='generated', index=idx, program_class=cls, source=src, features=sorted(prog.features))
     try:
         C = load_class(src, name, d)
     except SyntaxError:
@@ -728,7 +749,29 @@ def run_generated(run, d, idx, seed, n_cycles):
                 ins = [hw.wire(n, w) for n, w in prog.ins]
                 outs = [hw.wire(n, w) for n, w in prog.outs]
                 obj = C(hw, 'g', *ins, *outs, *[v for _, v in prog.consts])
-    res = cosim_behavioural(obj, hw, ins, outs, [n for n, _ in prog.states], vecs, kind == 'clock')
+    text = None
+    if cls == 'main' and kind == 'clock' and prog.states and idx % 3 == 1:
+        # the text is asked of an object that has already been simulated for a while: it must still describe the block from power-up,
+        # so it is compared against a fresh twin
+        try:
+            hw_u = py4hw.HWSystem()
+            with muted():
+                i_u = [hw_u.wire(n, w) for n, w in prog.ins]
+                o_u = [hw_u.wire(n, w) for n, w in prog.outs]
+                used = C(hw_u, 'g', *i_u, *o_u, *[v for _, v in prog.consts])
+                sim_u = hw_u.getSimulator()
+                for vec in vecs[:1 + idx % 7]:
+                    for w_ in i_u:
+                        w_.put(vec.get(w_.name, 0))
+                    sim_u.clk(1)
+                    if any(isinstance(v, int) and abs(v) >= (1 << 63) for v in vars(used).values()):
+                        break
+                text = py4hw.VerilogGenerator(used).getVerilogForHierarchy()
+            run.count('generated_after_use')
+            case = dict(case, generated_after_cycles=1 + idx % 7)
+        except BaseException:
+            text = None
+    res = cosim_behavioural(obj, hw, ins, outs, [n for n, _ in prog.states], vecs, kind == 'clock', text=text, power_up=(cls == 'main'))
     judge(run, name, cls, kind, res, case, stable_hash(src.replace(name, 'G')))
 
 
